@@ -7,7 +7,8 @@ MODULE = "Momtrop.Props.C10Law"
 THEOREMS = ["Momtrop.C10.momenta_eq", "Momtrop.C10.shift_eq", "Momtrop.C10.qTInv_whitens", "Momtrop.C10.propSum_at_sample", "Momtrop.C10.propSum_total", "Momtrop.C10.model_identity", "Momtrop.C10.gaussian_affine", "Momtrop.C10.momenta_law"]
 RULE = ("accepted connected graphs with 1..3 (quick) / 1..5 (thorough) loops, D=1..6, masses, shifts with offsets, non-fundamental bases and "
         "sparse face bases; shifts on a subset of loops only (some u_l exactly zero) included; the scalar identity "
-        "sum_e x_e(|q_e|^2+m_e^2) = v(1+|q|^2/(2 lambda)) is evaluated exactly at the returned momenta. Non-trivial: L>=2")
+        "sum_e x_e(|q_e|^2+m_e^2) = v(1+|q|^2/(2 lambda)) is evaluated exactly at the returned momenta. Non-trivial: L>=2"
+        " Also: 5- and 7-loop bananas, low-D tiny-xi points (L entries far outside [1e-50,1e50]), permuted bases with detached loops, vacuum graphs, masses decoupled from the is_massive flags and with negative sign, momenta in a coordinate hyperplane, offsets 1e5 times the physical scale; oracle: the returned Q^-T whitens L (tolerance from the scaled condition number); matrix correspondence; generic-scalar guard.")
 ASSUMPTIONS = ["tolerance 100 L^2 eps cond_inf(L) kappa_V (1+|q|^2/2lambda) relative to v(1+|q|^2/2lambda)"]
 
 
@@ -18,8 +19,10 @@ def run(ctx):
                      names=["banana4", "ladder3x", "mercedes", "sunrise", "sunrise_tadpole", "bubble_chain3"])
     ss += S.generate(ctx, 2 if ctx.quick else 10, 2, max_e=6, max_loops=5, routings_per_graph=2, names=["banana6"])
     ss += S.generate(ctx, 1 if ctx.quick else 4, 2, max_e=8, max_loops=7, routings_per_graph=2, names=["banana8"], kinds=("uniform",))
-    ss += S.generate(ctx, 3 if ctx.quick else 12, 1, max_e=7, max_loops=4, routings_per_graph=8,
-                     names=["sunrise_tadpole", "bubble_chain3", "triangle_tadpole", "bubble_chain"], variant="permuted", kinds=("uniform",))
+    for nm in ("sunrise_tadpole", "bubble_chain3", "triangle_tadpole", "bubble_chain"):      # each of them in every run
+        ss += S.generate(ctx, 1 if ctx.quick else 3, 1, max_e=7, max_loops=4, routings_per_graph=10, names=[nm], variant="permuted", kinds=("uniform",))
+    # all shifts with an exactly zero first component (momenta and offsets in a coordinate hyperplane), D >= 2
+    ss += S.generate(ctx, 5 if ctx.quick else 25, 2, max_e=5, max_loops=3, routings_per_graph=2, kinds=("uniform",), plane=True, dims=[2, 3, 4])
     # extremely small xi: L matrices with entries far outside [1e-50, 1e50] (any magnitude guard must still give the same momenta)
     ss += S.generate(ctx, 6 if ctx.quick else 30, 4, max_e=5, max_loops=3, routings_per_graph=1, kinds=("tiny_xi",),
                      names=["sunrise", "bubble", "double_triangle", "banana4", "triangle"])
@@ -55,6 +58,7 @@ def run(ctx):
             continue
         md = a["meta"]
         if not SC.finite([a["k"], a["v"], md["lambda"], md["q"], md["shift"], a["log"]["momtrop_feynman_parameter"]]):
+            SC.nonfinite_verdict(ctx, s, fields=("u", "v"))
             ctx.count("nonfinite_skipped"); continue
         x = SC.fr_list(a["log"]["momtrop_feynman_parameter"])
         ex = SC.exact_quantities(s, x)
